@@ -26,6 +26,7 @@ structure InvW (s : St σ) : Prop where
   freedClosed : ∀ (i : Nat) (d : Desc) (h : Nat),
     s.fds[i]? = some d → d.path = some h → s.heap[h]? = some Cell.freed → d.fd = -1 ∧ d.dir = none
   std : ∀ i : Nat, i < 3 → s.fds[i]? = some ⟨i, none, none⟩ ∨ s.fds[i]? = some Desc.empty
+  dirPath : ∀ (i : Nat) (d : Desc), s.fds[i]? = some d → d.dir ≠ none → d.path ≠ none
 
 /-- the invariant DESIGN §5 asks for: every stored path is live, and a closed slot is the empty descriptor -/
 structure InvS (s : St σ) : Prop extends InvW s where
@@ -72,6 +73,7 @@ theorem InvW_of_frame {s s' : St σ} (hf : s'.fds = s.fds) (hh : s'.heap = s.hea
   · intro i j d d' h; rw [hf]; exact hi.inj i j d d' h
   · intro i d h; rw [hf, hh]; exact hi.freedClosed i d h
   · intro i; rw [hf]; exact hi.std i
+  · intro i d; rw [hf]; exact hi.dirPath i d
 
 /-! ## the table operations -/
 
@@ -148,6 +150,34 @@ theorem InvW_tableAdd {s s' : St σ} {fd : Int} {path : Bytes} {idx : Nat}
   · intro i hi3
     rw [hf, List.getElem?_append_left (by omega)]
     exact hi.std i hi3
+  · intro i d hd hdir
+    rw [hf, getElem?_snoc] at hd
+    rcases hd with ⟨_, hd⟩ | ⟨_, hd⟩
+    · exact hi.dirPath i d hd hdir
+    · subst hd; simp at hdir
+
+/-! ## `wasiFileDescriptorGet` -/
+
+theorem getDesc_some {cfg : Cfg} {s : St σ} {n : Nat} {d : Desc} (h : getDesc cfg s n = some d) :
+    s.fds[n]? = some d ∧ (cfg.getRejectsClosed = true → ¬ (d.fd < 0 ∧ d.dir = none ∧ d.path = none)) := by
+  unfold getDesc at h
+  split at h
+  · cases h
+  · rename_i e he
+    split at h
+    · cases h
+    · rename_i hne
+      cases h
+      refine ⟨he, ?_⟩
+      intro hr hc
+      exact hne ⟨hr, hc⟩
+
+theorem getDesc_none_of_len {cfg : Cfg} {s : St σ} {n : Nat} (h : s.fds.length ≤ n) : getDesc cfg s n = none := by
+  unfold getDesc; rw [List.getElem?_eq_none h]
+
+theorem getDesc_none_of_empty {cfg : Cfg} {s : St σ} {n : Nat} (hc : cfg.getRejectsClosed = true)
+    (h : s.fds[n]? = some Desc.empty) : getDesc cfg s n = none := by
+  unfold getDesc; rw [h]; simp [hc, Desc.empty]
 
 /-! ## fd_close -/
 
@@ -160,12 +190,10 @@ theorem fdClose_val (cfg : Cfg) (H : Host σ) (s s' : St σ) (n : Nat) (r : Res)
       ((d.path = none ∧ s'.heap = s.heap) ∨
        (∃ hp p, d.path = some hp ∧ s.heap[hp]? = some (.live p) ∧ s'.heap = s.heap.set hp .freed))) := by
   unfold fdClose at h
-  simp only [getDesc] at h
   split at h
   · simp at h; obtain ⟨h1, h2⟩ := h; subst h1 h2; left; simp [BADF, Gen.Wasi.WASI_ERRNO_BADF]
-  · rename_i d hd
-    split at h
-    · simp at h; obtain ⟨h1, h2⟩ := h; subst h1 h2; left; simp [BADF, Gen.Wasi.WASI_ERRNO_BADF]
+  · rename_i d hd0
+    have hd := (getDesc_some hd0).1
     · split at h
       · simp at h; obtain ⟨h1, h2⟩ := h; subst h1 h2; left; simp
       · simp at h; obtain ⟨h1, h2⟩ := h; subst h1 h2; left; simp [BADF, Gen.Wasi.WASI_ERRNO_BADF]
@@ -188,3 +216,75 @@ theorem fdClose_val (cfg : Cfg) (H : Host σ) (s s' : St σ) (n : Nat) (r : Res)
             simp [hl]
           · rw [hf] at h; simp at h
           · rw [hf] at h; simp at h
+
+theorem getElem?_modify_some {α : Type} (l : List α) (n : Nat) (f : α → α) (i : Nat) (d' : α)
+    (h : (l.modify n f)[i]? = some d') : ∃ e, l[i]? = some e ∧ d' = if n = i then f e else e := by
+  rw [List.getElem?_modify] at h
+  cases he : l[i]? with
+  | none => rw [he] at h; simp at h
+  | some e => rw [he] at h; simp at h; exact ⟨e, rfl, h.symm⟩
+
+theorem InvW_fdClose (cfg : Cfg) (H : Host σ) (s s' : St σ) (n : Nat) (r : Res)
+    (h : fdClose cfg H s n = .val (s', r)) (hi : InvW s) : InvW s' := by
+  rcases fdClose_val cfg H s s' n r h with ⟨hf, hh, _, _⟩ | ⟨d, hd, _, _, hf, hheap⟩
+  · exact InvW_of_frame hf hh hi
+  · have hlen : s'.heap.length = s.heap.length := by
+      rcases hheap with ⟨_, hh⟩ | ⟨hp, p, _, _, hh⟩ <;> simp [hh]
+    -- every entry of the new table comes from the old entry at the same index, with the same or no path
+    have hsrc : ∀ (i : Nat) (d' : Desc), s'.fds[i]? = some d' →
+        ∃ e, s.fds[i]? = some e ∧ (d'.path = none ∨ d'.path = e.path) ∧ (i ≠ n → d' = e) ∧
+          (i = n → d'.fd = -1 ∧ d'.dir = none) := by
+      intro i d' hd'
+      rw [hf] at hd'
+      obtain ⟨e, he, hde⟩ := getElem?_modify_some _ _ _ _ _ hd'
+      refine ⟨e, he, ?_, ?_, ?_⟩
+      · subst hde; split <;> (try split) <;> simp
+      · intro hne; subst hde; simp [Ne.symm hne]
+      · intro heq; subst hde; simp [heq]
+    constructor
+    · intro i d' hp hd' hpath
+      obtain ⟨e, he, hpe, _, _⟩ := hsrc i d' hd'
+      rw [hlen]
+      rcases hpe with hpe | hpe
+      · rw [hpe] at hpath; cases hpath
+      · rw [hpe] at hpath; exact hi.valid i e hp he hpath
+    · intro i j d1 d2 hp hd1 hd2 hp1 hp2
+      obtain ⟨e1, he1, hpe1, _, _⟩ := hsrc i d1 hd1
+      obtain ⟨e2, he2, hpe2, _, _⟩ := hsrc j d2 hd2
+      rcases hpe1 with hpe1 | hpe1
+      · rw [hpe1] at hp1; cases hp1
+      · rcases hpe2 with hpe2 | hpe2
+        · rw [hpe2] at hp2; cases hp2
+        · rw [hpe1] at hp1; rw [hpe2] at hp2
+          exact hi.inj i j e1 e2 hp he1 he2 hp1 hp2
+    · intro i d' hp hd' hpath hfr
+      obtain ⟨e, he, hpe, hne, heq⟩ := hsrc i d' hd'
+      by_cases hin : i = n
+      · exact heq hin
+      · have hde := hne hin
+        subst hde
+        rcases hheap with ⟨_, hh⟩ | ⟨hpp, p, hdp, hl, hh⟩
+        · rw [hh] at hfr; exact hi.freedClosed i d' hp he hpath hfr
+        · rw [hh, List.getElem?_set] at hfr
+          split at hfr
+          · rename_i heq2
+            subst heq2
+            exact absurd (hi.inj i n d' d hpp he hd hpath hdp) hin
+          · exact hi.freedClosed i d' hp he hpath hfr
+    · intro i hi3
+      rcases hi.std i hi3 with hs | hs
+      · by_cases hin : i = n
+        · right
+          rw [hf, List.getElem?_modify, hs]; simp [hin, Desc.empty]
+        · left
+          rw [hf, List.getElem?_modify, hs]; simp [Ne.symm hin]
+      · right
+        rw [hf, List.getElem?_modify, hs]
+        by_cases hin : n = i <;> simp [hin, Desc.empty]
+    · intro i d' hd' hdir
+      obtain ⟨e, he, hpe, hne, heq⟩ := hsrc i d' hd'
+      by_cases hin : i = n
+      · exact absurd (heq hin).2 hdir
+      · have hde := hne hin
+        subst hde
+        exact hi.dirPath i d' he hdir
